@@ -209,7 +209,10 @@ type capSetting struct{ Val, Del uint64 }
 
 // MaxCommitteeSize = 0 is refused by genesis parameter validation (ErrInvalidParam), so the
 // "unlimited" case for validators is a cap above the population; for delegates 0 is legal.
-var capSettings = []capSetting{{100, 0}, {1, 1}, {2, 2}, {3, 3}, {5, 5}, {6, 6}}
+// The two caps are independent parameters: {2, 0} caps validators while delegates stay unlimited, {3, 1} the other way round
+// (sixth-round seed: the unlimited delegate cap fell back to the validator cap; invisible while both caps are equal or the
+// validator cap exceeds the population).
+var capSettings = []capSetting{{100, 0}, {1, 1}, {2, 2}, {3, 3}, {5, 5}, {6, 6}, {2, 0}, {3, 1}}
 
 func permutations(ms [5]uint64) [][5]uint64 {
 	seen := map[[5]uint64]bool{}
